@@ -18,6 +18,7 @@ DIMS = [
  ("nonascii", ["none", "default-value-é-before-token", "default-value-emoji-before-token", "non-ascii-parameter-before-token", "non-ascii-class-name", "non-ascii-in-usefixtures-before"]),
  ("collide", ["none", "test-name-contains-fixture-name", "dependent-fixture-name-contains-fixture-name"]),
  ("body", ["return", "yield"]),
+ ("depsig", ["one-line", "one-param-per-line", "closing-paren-own-line", "first-param-on-def-line"]),
 ]
 
 def build(a):
@@ -51,7 +52,23 @@ def build(a):
     # dependent fixture
     dep = "fx_name_user" if a["collide"] == 2 else "dep_user"
     L.append(I + "@pytest.fixture")
-    L.append(I + "def %s(%s):" % (dep, params(self_, "fx_name")))
+    ds = a["depsig"]
+    if ds == 0:
+        L.append(I + "def %s(%s):" % (dep, params(self_, "fx_name")))
+    elif ds == 1:
+        L.append(I + "def %s(" % dep)
+        for q in [x for x in (self_, "request") if x]:
+            L.append(I + unit * 2 + q + ",")
+        L.append(I + unit * 2 + "fx_name):")
+    elif ds == 2:
+        L.append(I + "def %s(" % dep)
+        for q in [x for x in (self_, "request", "fx_name") if x]:
+            L.append(I + unit + q + ",")
+        L.append(I + "):")
+    else:
+        L.append(I + "def %s(%s," % (dep, self_ or "request"))
+        L.append(I + unit * 2 + "fx_name,")
+        L.append(I + "):")
     L.append(I + unit + "return fx_name")
     L.append("")
     # test with the signature layout
